@@ -128,6 +128,11 @@ func (c *Channel) registerSubChannelFunding(id channel.ID, bals channel.Balances
 		if containedBefore || !containedAfter || expected.Equal(&subAlloc) != nil {
 			return false
 		}
+		// An update that is accepted without asking the user must not close
+		// the channel.
+		if cu.State.IsFinal {
+			return false
+		}
 		// Every participant must be debited exactly its sub-channel balance and
 		// all other sub-allocations must stay as they are.
 		if cur.Balances.AssertGreaterOrEqual(bals) != nil ||
@@ -146,6 +151,9 @@ func (c *Channel) registerSubChannelSettlement(id channel.ID, bals [][]channel.B
 		subAlloc, containedBefore := cur.SubAlloc(id)
 		_, containedAfter := cu.State.SubAlloc(id)
 		if !containedBefore || containedAfter || !cur.Balances.Add(bals).Equal(cu.State.Balances) {
+			return false
+		}
+		if cu.State.IsFinal {
 			return false
 		}
 		// All other sub-allocations must stay as they are.
